@@ -49,7 +49,7 @@ _STATES = re.compile(r'(\d+) states generated, (\d+) distinct states found')
 def run_tlc(module, cfg, workdir, env=None, workers=1, timeout=3600, extra_args=(), xmx='2g', simulate=None):
     """Run TLC on spec/<module>.tla with spec/<cfg>; return dict(out, states, distinct, ok, rc)."""
     meta = tempfile.mkdtemp(prefix='meta-', dir=workdir)
-    cmd = ['java', f'-Xmx{xmx}', '-XX:+UseParallelGC', '-XX:ParallelGCThreads=2', '-Xss64m', '-Dfile.encoding=UTF-8',
+    cmd = ['java', f'-Xmx{xmx}', '-XX:+UseParallelGC', '-XX:ParallelGCThreads=2', '-Xss64m', '-Dfile.encoding=UTF-8', '-Dstdout.encoding=UTF-8',
            '-cp', TLA_CP, 'tlc2.TLC', '-workers', str(workers), '-metadir', meta, '-noGenerateSpecTE',
            '-config', cfg]
     cmd += list(extra_args)
